@@ -16,6 +16,7 @@ def run(repo, res, tier):
     effects.rule_e2(repo, res)
     effects.rule_e3(repo, res)
     effects.rule_e4(repo, res)
+    effects.rule_e5(repo, res)
     effects.rule_estate(repo, res, families=("PVLParser",), floor=2)
     an = parserules.analyse(repo)
     t4 = parserules.add_rule(res, an, "T4")
